@@ -11,7 +11,29 @@ import (
 // encodingCase produces a 32-byte candidate encoding with a class label.
 func encodingCase(r *gen.Rand, i int64) ([]byte, string) {
 	one := big.NewInt(1)
-	switch i % 12 {
+	switch i % 13 {
+	case 12:
+		// decoding decides by comparing v*r^2 with u, -u, -u*i (u = y^2-1): choose y so that two
+		// of those candidates differ by a structured value, u = delta/(zeta - zeta')
+		roots := []*big.Int{big.NewInt(1), ref.FNeg(big.NewInt(1)), ref.SqrtM1, ref.FNeg(ref.SqrtM1)}
+		for try := 0; try < 6; try++ {
+			a := r.Intn(4)
+			b := (a + 1 + r.Intn(3)) % 4
+			u := ref.FMul(r.StructuredDelta(), ref.FInv(ref.FSub(roots[a], roots[b])))
+			y2 := ref.FAdd(u, one)
+			if ref.IsSquare(y2) {
+				y := ref.EvenSqrt(y2)
+				if r.Bool() {
+					y = ref.FNeg(y)
+				}
+				bb := ref.FeBytes(y)
+				if r.Bool() {
+					bb[31] |= 0x80
+				}
+				return bb[:], "candidates differ by a structured value"
+			}
+		}
+		return r.Bytes(32), "uniform"
 	case 0, 1, 2:
 		return r.Bytes(32), "uniform"
 	case 3: // valid encoding, sign flipped
